@@ -1,6 +1,7 @@
 import DrummerVerif.Lemmas.C18
 import DrummerVerif.Lemmas.C01X
 import DrummerVerif.Bridge.Bridge
+import DrummerVerif.Lemmas.C01T
 /-!
 # C18 — the NodeHost agent reports truthfully and executes requests once, in order
 
@@ -113,6 +114,14 @@ theorem fleet_model_follows_agent_table :
                   Option.map (fun x => x.id) (Host.run? h' r.shardId) = some r.instantiateReplicaId
             else Loop.execCreate l h r = l :=
   @_root_.Drummer.execCreate_follows_table
+
+/-- truthfulness inside the closed loop: every entry of a host's report names a replica the host runs at that moment
+(the converse, every running replica is listed, is `Props/C01.every_running_replica_is_reported`) -/
+theorem report_lists_only_running_replicas :
+    ∀ (l : Loop) (h : Host) (count : Nat) (ci : ShardInfo),
+      ci ∈ (Loop.buildReport l h count).shardInfo →
+        ∃ rep, Host.run? h ci.shardId = some rep ∧ rep.id = ci.replicaId :=
+  @_root_.Drummer.buildReport_lists_only_running
 
 end C18
 end Drummer
